@@ -56,6 +56,18 @@ def check(chk: Check) -> None:
             cfg = CFG(node)
             falls = [p for p in cfg.g.predecessors(cfg.exit)
                      if not (isinstance(cfg.info[p].ast, ast.Return) and cfg.info[p].ast.value is not None)]
+
+            def in_finally_of_returning_try(a: ast.AST) -> bool:
+                # ``try: return X  finally: cleanup``: the end of the cleanup is not the end of the function
+                cur, par = a, getattr(a, "_parent", None)
+                while par is not None and par is not node:
+                    if isinstance(par, ast.Try) and any(cur is s_ or any(cur is y for y in ast.walk(s_)) for s_ in par.finalbody):
+                        last_ = par.body[-1] if par.body else None
+                        if isinstance(last_, ast.Raise) or (isinstance(last_, ast.Return) and last_.value is not None):
+                            return True
+                    cur, par = par, getattr(par, "_parent", None)
+                return False
+            falls = [p for p in falls if not (cfg.info[p].ast is not None and in_finally_of_returning_try(cfg.info[p].ast))]
             # ``return`` without a value counts as falling through, too
             ok = not falls
             if "Optional" in unparse(node.returns) or unparse(node.returns) in ("object", "Any", "typing.Any"):
